@@ -69,7 +69,7 @@ def run(ctx):
             bases.append(dict(file=p['file'], fields=p['fields']))
     ctx.log("XzFault: %d (base, field, class) entries for %d base files" % (len(table), len(bases)))
     tools = build.cli("plain")
-    cli_every = 97 if quick else 11
+    cli_every = 97 if quick else 7
     NS = 4 if quick else 6
     def xz_args(k, shards):
         part, base = slices(bases, k, shards)
@@ -101,7 +101,8 @@ def run(ctx):
             hit.update(ev["classes"])
     ctx.extra["abstract_fault_classes_exercised"] = len(hit)
     kinds = set(x.split("|")[1] for x in hit)
-    if not {"flip", "over", "ins", "del", "trunc", "none"} <= kinds or len(hit) < 300:
+    crashed = any(v["key"].startswith("crash:") for v in ctx.violations)      # a crashing library cuts the enumeration short: already reported
+    if not crashed and (not {"flip", "over", "ins", "del", "trunc", "none"} <= kinds or len(hit) < 300):
         raise MachineryError("the concrete mutants exercise too few abstract fault classes: %d, kinds %s" % (len(hit), sorted(kinds)))
     # ---- CLI
     cli_jobs = []
@@ -111,7 +112,7 @@ def run(ctx):
             cli_jobs.append((bytes.fromhex(d), bytes.fromhex(o), label, adm))
     e = dict(os.environ); e.pop("LD_PRELOAD", None)
     xzjobs = [j for j in cli_jobs]
-    n3 = P.run_cli(ctx, xzjobs, [("xz -dc", [tools["xz"], "-dc", "-qq", "-Q"])], ctx.workdir)
+    n3 = P.run_cli(ctx, xzjobs, [("xz-dc", [tools["xz"], "-dc", "-qq", "-Q"])], ctx.workdir)
     n3 += P.run_cli(ctx, [j for j in cli_jobs if j[2].startswith("xz:")], [("xzdec", [tools["xzdec"], "-q"])], ctx.workdir)
     n3 += P.run_cli(ctx, [j for j in cli_jobs if j[2].startswith("lzma:")], [("lzmadec", [tools["lzmadec"], "-q"])], ctx.workdir)
     ctx.log("CLI: %d runs of xz -dc / xzdec / lzmadec on %d sampled mutants" % (n3, len(cli_jobs)))
